@@ -99,6 +99,10 @@ where
     T: Send + 'static,
     F: FnOnce() -> T + Send + 'static,
 {
+    let continuing = match env.session {
+        Some(id) if id != u64::MAX => SESSION.with(|c| c.borrow().as_ref().map(|s| s.id == id).unwrap_or(false)),
+        _ => false,
+    };
     with_world(|w| {
         w.out.clear();
         w.err.clear();
@@ -108,7 +112,8 @@ where
         // Same simulated day, but every simulated process sees its own time of day and pid.
         w.now_unix = env.now_unix();
         w.pid = 10_000 + (env.hash_seed % 50_000) as i32;
-        w.mono_ns = (3_600 + env.hash_seed % 86_400) * 1_000_000_000;
+        // (inside a long-lived process the monotonic clock goes on; it never jumps back)
+        w.mono_ns = if continuing { SESSION_MONO.with(|c| c.get()) + (1 + env.hash_seed % 7_200) * 1_000_000_000 } else { (3_600 + env.hash_seed % 86_400) * 1_000_000_000 };
         w.latency_seed = env.hash_seed;
         w.requests_timed = 0;
         w.unmodelled.clear();
@@ -191,6 +196,10 @@ where
         }
     };
     crate::interpose::set_process_running(false);
+    if matches!(env.session, Some(id) if id != u64::MAX) {
+        let m = with_world(|w| w.mono_ns);
+        SESSION_MONO.with(|c| c.set(m));
+    }
     with_world(|w| {
         w.fs.end_process();
         ProcOut {
@@ -221,6 +230,8 @@ struct Session {
 thread_local! {
     /// The driver thread's current long-lived simulated process, if any.
     static SESSION: std::cell::RefCell<Option<Session>> = const { std::cell::RefCell::new(None) };
+    /// where that process's monotonic clock stood when its latest run ended
+    static SESSION_MONO: std::cell::Cell<u64> = const { std::cell::Cell::new(0) };
 }
 
 /// The long-lived simulated process (if any) exits.
